@@ -51,8 +51,8 @@ Proof.
     unfold mux_inv in Hinv. destruct (y_cur s) as [f|] eqn:Hc.
     + destruct Hinv as [Hname Hmux]. rewrite (close_frame_inv f _ Hname Hmux). cbn. split; [reflexivity|left; reflexivity].
     + cbn. split; [reflexivity|left; reflexivity].
-  - destruct (num_of v); [|exact Hinv]. destruct hsuffix; cbn [andb negb]; [|exact Hinv].
-    apply mux_inv_set; [intros f; repeat split|exact Hinv].
+  - destruct (num_of v); [|exact Hinv]. destruct hsuffix; [|destruct (_ <? 16); [exact Hinv|]];
+      (apply mux_inv_set; [intros f; repeat split|exact Hinv]).
   - destruct v as [z| |]; try exact Hinv. destruct z as [|p|p]; try exact Hinv.
     destruct p; try exact Hinv. apply mux_inv_set; [intros f; repeat split|exact Hinv].
   - destruct (num_of v); [|exact Hinv]. apply mux_inv_set; [intros f; repeat split|exact Hinv].
@@ -88,8 +88,8 @@ Proof.
   - unfold ystep_header in H. cbn [andb] in H. destruct closed; cbn [negb] in H; [|inversion H; reflexivity].
     destruct (name =? y_fname s); [discriminate|]. unfold mux_inv in Hinv. destruct (y_cur s) as [f|]; [|discriminate].
     destruct Hinv as [Hn Hm]. rewrite (close_frame_inv f _ Hn Hm) in H. discriminate.
-  - destruct (num_of v); [|inversion H; reflexivity]. destruct hsuffix; cbn [andb negb] in H; [|inversion H; reflexivity].
-    unfold ystep_set in H. destruct (y_cur s); [discriminate|inversion H; reflexivity].
+  - destruct (num_of v); [|inversion H; reflexivity]. destruct hsuffix; [|destruct (_ <? 16); [inversion H; reflexivity|]];
+      (unfold ystep_set in H; destruct (y_cur s); [discriminate|inversion H; reflexivity]).
   - destruct v as [z| |]; try discriminate. destruct z as [|p|p]; try discriminate. destruct p; try discriminate.
     unfold ystep_set in H. destruct (y_cur s); [discriminate|inversion H; reflexivity].
   - destruct (num_of v); [|inversion H; reflexivity]. unfold ystep_set in H.
@@ -110,8 +110,7 @@ Lemma sym_malformed_fails : forall l, sym_malformed l = true -> forall s, sym_st
 Proof.
   intros l Hm s. destruct l; cbn [sym_malformed] in Hm; unfold sym_step, sym_step_gen.
   - unfold ystep_header. destruct closed; [discriminate|reflexivity].
-  - destruct (num_of v) eqn:Hv; [|reflexivity]. rewrite (num_some_not_num _ _ Hv) in Hm. cbn in Hm.
-    destruct hsuffix; [discriminate|reflexivity].
+  - destruct (num_of v) eqn:Hv; [|reflexivity]. rewrite (num_some_not_num _ _ Hv) in Hm. discriminate.
   - discriminate.
   - destruct (num_of v) eqn:Hv; [|reflexivity]. rewrite (num_some_not_num _ _ Hv) in Hm. discriminate.
   - destruct (num_of v) eqn:Hv; [|reflexivity]. rewrite (num_some_not_num _ _ Hv) in Hm. discriminate.
@@ -212,9 +211,9 @@ Proof.
       cbn [y_done y_cur]. intros h Hh. exists h. split; [apply in_or_app; left; exact Hh|apply yframe_le_refl].
     + cbn [settle]. unfold sym_all_frames. rewrite Hc. cbn [y_done y_cur]. intros h Hh. exists h.
       split; [rewrite app_nil_r in Hh; apply in_or_app; left; exact Hh|apply yframe_le_refl].
-  - destruct (num_of v); [|apply yframes_le_refl]. destruct hsuffix; cbn [andb negb]; [|apply yframes_le_refl].
-    unfold ystep_set. destruct (y_cur s) eqn:Hc; [|apply yframes_le_refl]. cbn [settle].
-    eapply all_frames_replace_cur; [exact Hc|]. split; [reflexivity|auto].
+  - destruct (num_of v); [|apply yframes_le_refl]. destruct hsuffix; [|destruct (_ <? 16); [apply yframes_le_refl|]];
+      (unfold ystep_set; destruct (y_cur s) eqn:Hc; [|apply yframes_le_refl]; cbn [settle];
+       eapply all_frames_replace_cur; [exact Hc|]; split; [reflexivity|auto]).
   - destruct v as [z| |]; try apply yframes_le_refl. destruct z as [|p|p]; try apply yframes_le_refl.
     destruct p; try apply yframes_le_refl.
     unfold ystep_set. destruct (y_cur s) eqn:Hc; [|apply yframes_le_refl]. cbn [settle].
